@@ -50,6 +50,12 @@ EDITS = [
     ("C03", PW, "if header_crc != expected_crc {", "if expected_crc != header_crc {"),
     ("C03", PW, "let padding = slice[20 + chunk_length..slice.len() - 4].to_vec();", "let padding = slice[chunk_length + 20..slice.len() - 4].to_vec();"),
     ("C05", PW, "let bytes_per_channel = if requested_samples % 2 == 0 {", "let bytes_per_channel = if requested_samples & 1 == 0 {"),
+    ("C05", PW, "if slice.len() < 56 {", "if slice.len() <= 55 {"),
+    ("C05", PW, "if last_sca_cell > 511 {", "if last_sca_cell >= 512 {"),
+    ("C05", PW, "if bytes_per_channel * channels_sent.len() + 4 != data.len() {", "if data.len() != bytes_per_channel * channels_sent.len() + 4 {"),
+    ("C05", PW, "            4 + 2 * requested_samples + 2\n        };", "            6 + 2 * requested_samples\n        };"),
+    ("C05", PW, "if found_channel != channel {", "if channel != found_channel {"),
+    ("C05", PW, "if found_size != requested_samples {", "if requested_samples != found_size {"),
     ("C04", PW, "if chunks.is_empty() {", "if chunks.len() == 0 {"),
     ("C02", A16, "if slice.len() < 16 {", "if 16 > slice.len() {"),
     ("C02", A16, "if waveform_bytes % 2 != 0 {", "if waveform_bytes & 1 == 1 {"),
